@@ -49,6 +49,9 @@ def _serialize_ds9(regions, precision=8):
     for region in region_data:
         region_meta = deepcopy(region['meta'])
         region_meta.pop('tag', None)  # "tag" cannot be in global metadata
+        # "include" in a global line is overridden by the (implicit) sign
+        # of each region line when the file is read
+        region_meta.pop('include', None)
         all_meta.append(region_meta)
 
     global_meta = dict(set.intersection(*[set(meta_dict.items())
